@@ -8,7 +8,7 @@ Composes the shared engine harness and P-code generator (neither is modified):
 * trajectories     - piecewise constant inputs whose values are taken around the condition constants (converted exactly
   into the tag's unit), so conditions switch several times, including single-tick pulses.
 * requests         - cancel / force on run-log items of Watch/Alarm lines, chosen at run time among the items the run
-  log offers at that tick (index modulo number of eligible items).
+  log offers at that tick (index modulo number of eligible items); 'endblock' = a user End block request (injected code).
 * run(case)        - executes a case on the real Engine and returns a Trace: the harness event log (extended with the
   request events), the per-tick state, and - per tick and condition tag - the *exact list of values the tag showed to
   the interpreter* in that tick (value after the hardware read, value after every Simulate / Simulate off).
@@ -130,7 +130,8 @@ def _interrupt(draw, cfg, body, kind=None):
 def template(draw, cfg: G.GenCfg):
     """directed shapes; every one keeps the JSON format of pcode_gen so render() applies"""
     shape = draw(st.sampled_from(["block-threshold", "end-from-other", "alarm-block-watch", "watch-in-alarm",
-                                  "alarm-in-watch", "self-end", "two-level-blocks"]))
+                                  "alarm-in-watch", "self-end", "two-level-blocks", "ender-then-late-line", "ender-then-late-line",
+                                  "late-line-in-block", "alarm-with-block", "alarm-with-block"]))
     end_t = draw(st.sampled_from([None, 0.3, 0.6, 1.0, 1.5]))
     if shape == "block-threshold":
         x = draw(_interrupt(cfg, draw(_filler(0, 3))))
@@ -164,6 +165,25 @@ def template(draw, cfg: G.GenCfg):
         body = [x] + draw(_filler(0, 2)) + [{"k": "wait", "t": None, "d": draw(st.sampled_from([0.5, 1.0, 1.5]))}]
         blk = {"k": "block", "t": None, "c": body, "end": "endblock", "end_t": None}
         top = [blk] + draw(_filler(1, 3)) + [{"k": "wait", "t": None, "d": 1.0}]
+    elif shape == "ender-then-late-line":
+        # an interrupt that ends the block, then 0-5 two-tick lines, then the interrupt line under test: the End block lands
+        # on every tick offset around the start of that line (entered by main, not yet registered)
+        ender = draw(_interrupt(cfg, [{"k": draw(st.sampled_from(["endblock", "endblock", "endblocks"])), "t": None}]))
+        x = draw(_interrupt(cfg, draw(_filler(0, 2))))
+        body = [ender] + draw(_filler(0, 5, allow_wait=False)) + [x] + draw(_filler(0, 2)) + \
+            [{"k": "wait", "t": None, "d": draw(st.sampled_from([0.5, 1.0, 1.5]))}]
+        blk = {"k": "block", "t": None, "c": body, "end": "endblock", "end_t": None}
+        top = draw(_filler(0, 1)) + [blk] + draw(_filler(1, 2)) + [{"k": "wait", "t": None, "d": 1.5}]
+    elif shape == "late-line-in-block":
+        # the block is meant to be ended by a user End block request (cases() adds them at early ticks)
+        x = draw(_interrupt(cfg, draw(_filler(0, 2))))
+        body = draw(_filler(0, 3, allow_wait=False)) + [x] + draw(_filler(0, 1)) + [{"k": "wait", "t": None, "d": 1.5}]
+        blk = {"k": "block", "t": None, "c": body, "end": "endblock", "end_t": None}
+        top = draw(_filler(0, 1)) + [blk] + draw(_filler(1, 2)) + [{"k": "wait", "t": None, "d": 1.5}]
+    elif shape == "alarm-with-block":
+        blk = {"k": "block", "t": None, "c": draw(_filler(0, 2)), "end": draw(st.sampled_from(["endblock", "endblock", "endblocks"])), "end_t": None}
+        a = draw(_interrupt(cfg, draw(_filler(0, 1)) + [blk] + draw(_filler(0, 2)), kind="alarm"))
+        top = draw(_filler(0, 1)) + [a] + draw(_filler(1, 3)) + [{"k": "wait", "t": None, "d": 1.5}]
     else:  # two-level-blocks
         x = draw(_interrupt(cfg, draw(_filler(0, 2))))
         inner = {"k": "block", "t": None, "c": [x] + draw(_filler(0, 2)), "end": draw(st.sampled_from(["endblock", "endblocks"])), "end_t": end_t}
@@ -230,11 +250,15 @@ def trajectories(draw, tree, n_ticks: int):
 
 
 @st.composite
-def requests(draw, n_ticks: int):
+def requests(draw, n_ticks: int, in_block: bool = False):
+    """cancel / force on offered run-log items; 'endblock' = the user's End block request (injected code) between two ticks,
+    drawn at early ticks so that it lands around the start of the lines of a block"""
     out = []
     for _ in range(draw(st.sampled_from([0, 0, 1, 1, 2, 3]))):
         out.append([draw(st.integers(3, max(3, n_ticks - 5))), draw(st.sampled_from(["cancel", "force"])), draw(st.integers(0, 7))])
-    out.sort(key=lambda r: r[0])
+    for _ in range(draw(st.sampled_from([0, 1, 1, 2] if in_block else [0, 0, 0, 1]))):
+        out.append([draw(st.integers(3, min(30, max(3, n_ticks - 5)))), "endblock", 0])
+    out.sort(key=lambda r: (r[0], r[1], r[2]))
     return out
 
 
@@ -242,7 +266,10 @@ def requests(draw, n_ticks: int):
 def cases(draw, deep: bool):
     tree = draw(trees(deep))
     n_ticks = draw(st.sampled_from([60, 80, 100] if not deep else [80, 120, 160, 200]))
-    return {"tree": tree, "n_ticks": n_ticks, "traj": draw(trajectories(tree, n_ticks)), "reqs": draw(requests(n_ticks))}
+    lines = G.render(tree)
+    by_id = {l.id: l for l in lines}
+    in_block = any(l.kind in INTERRUPT_KINDS and l.parent and by_id[l.parent].kind == "block" for l in lines)
+    return {"tree": tree, "n_ticks": n_ticks, "traj": draw(trajectories(tree, n_ticks)), "reqs": draw(requests(n_ticks, in_block))}
 
 
 def valid(case) -> bool:
@@ -271,7 +298,7 @@ def valid(case) -> bool:
                 if k not in COND_TAGS or isinstance(v, bool) or not isinstance(v, (int, float)) or not -1e6 < v < 1e6:
                     return False
         for r in case.get("reqs", []):
-            if not (isinstance(r, list) and len(r) == 3 and isinstance(r[0], int) and r[1] in ("cancel", "force")
+            if not (isinstance(r, list) and len(r) == 3 and isinstance(r[0], int) and r[1] in ("cancel", "force", "endblock")
                     and isinstance(r[2], int) and r[2] >= 0):
                 return False
         return True
@@ -317,7 +344,7 @@ def run(case) -> Trace:
             assert tag is h.uod.tags[tn]
             for m in ("set_value", "simulate_value", "simulate_value_and_unit", "stop_simulation"):
                 wrap(tag, m)
-        reqs = sorted(case.get("reqs", []), key=lambda r: r[0])
+        reqs = sorted(case.get("reqs", []), key=lambda r: (r[0], str(r[1]), r[2]))
         h.user("Start")
         for t in range(case["n_ticks"]):
             inp = G.traj_at(case.get("traj", []), t)
@@ -325,6 +352,11 @@ def run(case) -> Trace:
                 h.set_inputs(**{k: float(v) for k, v in inp.items()})
             for r in reqs:
                 if r[0] != t:
+                    continue
+                if r[1] == "endblock":
+                    if tr.states and tr.states[-1] == "Running":
+                        h.inject("End block")
+                        h.events.append((h.tick_no + 1, "req", "endblock", None, True))
                     continue
                 items = []
                 if tr.runlog_failed:
